@@ -341,6 +341,17 @@ class C19(Prop):
                 base = key_of(pp)[2:]
                 xp = rng.choice(["//", "/", ""]) + (base + "/" if base else "") + "%s[text()=%s]/../%s" % (k, dd[k] if hit else "zz9", f)
                 add("findall", "rnd:sibling", tree=t, xp=xp, expect=[list(pp) + [f]] if hit else [])
+            if rng.random() < 0.12:
+                # two levels up from a leaf of a list element: a name applied to the list, '[*]' and the exact index are three
+                # spellings of the same fan-out, and '../..' from the selected leaf is the owner of the list in all of them
+                skus = rng.sample(["A1", "B2", "C3", "D4"], rng.randint(1, 3))
+                shop = {"shop": {"currency": rng.choice(["EUR", "USD"]), "items": [{"sku": x, "q": n} for n, x in enumerate(skus)], "open": "yes"}}
+                gi = rng.randrange(len(skus))
+                hit = rng.random() < 0.8
+                step = rng.choice(["items", "items[*]", "items[%d]" % gi, "items/[*]"])
+                f = rng.choice(["currency", "open"])
+                xp = rng.choice(["//", "/", ""]) + "shop/%s/sku[text()=%s]/../../%s" % (step, skus[gi] if hit else "zz9", f)
+                add("findall", "rnd:fan-up", tree=shop, xp=xp, expect=[["shop", f]] if hit else [])
             for _ in range(5):
                 add(rng.choice(["findall", "findall", "findall", "findfirst"]), "rnd:misc", tree=t, xp=gen_misc_expr(rng, t, poss),
                     rx=rng.random() < 0.5)
